@@ -620,18 +620,22 @@ def distribute (p : Params) (s : St) : St × Out × Bool :=
     | (s', _, o) => (s', o, true)
   | _, _, _ => (s, .crash, true)
 
+/-- one record of processWithdrawQueue: (updated record, amount released to the recipient) -/
+def payRec (n : Nat) (r : WRec) : WRec × Int :=
+  if r.final ≤ 0 then ({ r with finished := true }, 0)                       -- no more token for withdrawing
+  else if r.completion < n ∧ ¬ r.finished then ({ r with finished := true }, r.final)
+  else (r, 0)
+
+/-- discard rule; the uint64 subtraction wraps when the record is not yet mature -/
+def discardRec (p : Params) (n : Nat) (r : WRec) : Bool :=
+  r.finished && decide ((if n ≥ r.completion then n - r.completion else n + 18446744073709551616 - r.completion) > p.retention)
+
 /-- processWithdrawQueue -/
 def processQueue (p : Params) (n : Nat) : List WRec → List (Addr × Int) → List WRec × List (Addr × Int)
   | [], bal => ([], bal)
   | r :: t, bal =>
-    let (r', bal') :=
-      if r.final ≤ 0 then ({ r with finished := true }, bal)
-      else if r.completion < n ∧ ¬ r.finished then ({ r with finished := true }, addI bal r.recipient r.final)
-      else (r, bal)
-    let (q, bal'') := processQueue p n t bal'
-    -- uint64 subtraction wraps when the record is not yet mature
-    let diff := if n ≥ r'.completion then n - r'.completion else n + 18446744073709551616 - r'.completion
-    if r'.finished ∧ diff > p.retention then (q, bal'') else (r' :: q, bal'')
+    let rest := processQueue p n t (addI bal r.recipient (payRec n r).2)
+    if discardRec p n (payRec n r).1 then rest else ((payRec n r).1 :: rest.1, rest.2)
 
 /-- UpdateDelegation(d, val, delta): returns the new validator object -/
 def updateDelegation (unit : Int) (v : Val) (d : Addr) (delta : Int) : Val :=
